@@ -104,7 +104,7 @@ pub fn run(toks: &[&str]) -> String {
             Ok(x) => x,
             Err(e) => return format!("connect-error {}", hex(format!("{e:?}").as_bytes())),
         };
-        let res = tokio::time::timeout(std::time::Duration::from_secs(120), client.album_art("song.flac")).await;
+        let res = tokio::time::timeout(std::time::Duration::from_secs(10), client.album_art("song.flac")).await;
         let shown = match res {
             Err(_) => "timeout".to_string(),
             Ok(Err(e)) => format!("error {}", hex(format!("{e:?}").chars().take(120).collect::<String>().as_bytes())),
